@@ -8,7 +8,8 @@ Record ucase := {
   mu_steps : list (fsop * fres);                       (* operation, what the mount answered *)
   mu_inodes : list (list (list string * N));           (* at checkpoints: every live entry and its inode *)
   mu_commit : option (list (list string * list N));    (* files of the committed bundle (None: commit failed) *)
-  mu_crashed : bool                                    (* an operation panicked or killed the process *)
+  mu_crashed : bool;                                   (* an operation panicked or killed the process *)
+  mu_orphans : list bool                               (* files unlinked while still referenced: writes and reads through the inode went on working *)
 }.
 
 Definition errno_eqb (a b : errno) : bool :=
@@ -61,7 +62,8 @@ Fixpoint nodup_N (l : list N) : bool :=
 
 (* the reference tree is the statement; on top of it: no crash, no two live entries with one inode *)
 Definition spec_ok (c : ucase) : bool :=
-  negb (mu_crashed c) && negb (case_mismatch c) && forallb (fun cp => nodup_N (map snd cp)) (mu_inodes c).
+  negb (mu_crashed c) && negb (case_mismatch c) && forallb (fun cp => nodup_N (map snd cp)) (mu_inodes c) &&
+  forallb (fun b => b) (mu_orphans c).
 
 Definition report (cs : list ucase) : list N * list N :=
   (indices (fun c => case_mismatch c && negb (mu_crashed c)) cs, indices (fun c => negb (spec_ok c)) cs).
